@@ -32,6 +32,7 @@ EXTRA_TRUSTED = [
 ]
 ASSUMPTIONS = [
     "hard criteria are neutralised in the metamorphic runs (rounding may move a pole across a threshold); poles with |xi| < 1e-6 or xi within 1e-6 of 1 are not judged",
+    "poles with damping above 50 % or frequency beyond Nyquist (computational poles) are not judged",
     "orthogonal mixing is applied to single-setup data with all channels as references; multi-setup data are permuted within each setup",
 ]
 
@@ -107,7 +108,7 @@ def _unity(phi):
     return abs(phi[k] - 1) <= 1e-9
 
 
-def _cmp_tables(ctx, base, new, kf, rowmap, tag, inp, tol=1e-6):
+def _cmp_tables(ctx, base, new, kf, rowmap, tag, inp, fs_new, tol=1e-6):
     """poles of every order column matched one-to-one; kf = expected frequency factor; rowmap maps base shape -> expected new shape"""
     Fn0, Xi0, Ph0 = base
     Fn1, Xi1, Ph1 = new
@@ -120,7 +121,9 @@ def _cmp_tables(ctx, base, new, kf, rowmap, tag, inp, tol=1e-6):
         used = set()
         for r in i0:
             f, x = Fn0[r, c] * kf, Xi0[r, c]
-            if abs(x) < 1e-6 or abs(x - 1) < 1e-6 or f <= 0:
+            if abs(x) < 1e-6 or abs(x - 1) < 1e-6 or f <= 0 or x > 0.5 or f > 0.5 * fs_new:
+                # computational poles (damping above 50 % or beyond the Nyquist frequency) are ill-conditioned: their
+                # sensitivity to the rounding differences between the two runs is unbounded; not judged, counted
                 ctx.skipped += 1
                 continue
             want = rowmap(Ph0[r, c, :])
@@ -185,7 +188,8 @@ def _single_case(ctx, kind):
 
     f, P = sps.welch(y[:, 0], fs=fs, nperseg=p["nxseg"])
     pk = np.argsort(P[3:-3])[::-1][:1] + 3
-    sel = sorted(float(f[i]) for i in pk)
+    # the request is placed one to two lines off the peak, so that the band half-width (3 lines) decides which line is picked
+    sel = sorted(float(f[i]) + rng.choice([-2, -1, 1, 2]) * fs / p["nxseg"] for i in pk)
     tr = rng.choice(["gain", "gain2", "perm", "orth", "time"])
     if tr == "orth" and p["ref"] is not None:
         p["ref"] = None
@@ -274,7 +278,7 @@ def oracle(ctx, scale):
             ctx.nontrivial.add((kind, tr, p["sd"]))
             ctx.count(f"cases_{tr}")
             if base["tables"] is not None:
-                if not _cmp_tables(ctx, base["tables"], new["tables"], kf, rowmap, tag, inp):
+                if not _cmp_tables(ctx, base["tables"], new["tables"], kf, rowmap, tag, inp, fs2):
                     return
             else:
                 if not _cmp_modes(ctx, base["modes"], new["modes"], kf, rowmap, tag, inp):
@@ -287,7 +291,7 @@ def oracle(ctx, scale):
             from scipy import signal as sps
 
             f, P = sps.welch(datasets[0][:, ref_ind[0][0]], fs=fs, nperseg=nx)
-            sel = [float(f[int(np.argmax(P[3:-3])) + 3])]
+            sel = [float(f[int(np.argmax(P[3:-3])) + 3]) + rng.choice([-2, -1, 1, 2]) * fs / nx]
             tr = rng.choice(["gain", "gain2", "perm", "time"])
             inp = {"class": kind, "transformation": tr, "fs": fs, "params": p, "ref_ind": ref_ind, "labels": labels, "case": f"seed{ctx.seed}#{it}"}
             try:
@@ -328,7 +332,7 @@ def oracle(ctx, scale):
             ctx.nontrivial.add((kind, tr, p["sd"]))
             ctx.count(f"cases_{tr}")
             if base["tables"] is not None:
-                if not _cmp_tables(ctx, base["tables"], new["tables"], kf, rowmap, tag, inp):
+                if not _cmp_tables(ctx, base["tables"], new["tables"], kf, rowmap, tag, inp, fs2):
                     return
             else:
                 if not _cmp_modes(ctx, base["modes"], new["modes"], kf, rowmap, tag, inp):
